@@ -25,6 +25,8 @@ ATTRIBUTION = [
     (r'Input part is missing|Output part slot is already full|Invalid PartHandler state', 'C06'),
     (r'trying to exit Group|RecursionError|maximum recursion', 'C08'),
     (r'Trying to release|did not reserve any', 'C11'),
+    (r'library calls inside one event \(in (_check_pending_requests|_can_fulfill_request)', 'C10'),
+    (r'library calls inside one event \(in (try_working_requests|_is_work_order_requested)', 'C12'),
 ]
 
 
@@ -160,7 +162,7 @@ class LineRun:
                         f()
             except CaseAbort:
                 status = 'violation'
-            except BudgetExceeded as e:
+            except (BudgetExceeded, instrument.CallBudgetExceeded) as e:
                 status = 'budget'
                 self.crash = ('budget', str(e), '')
             except RecursionError as e:
